@@ -168,6 +168,7 @@ pub fn simple_modes_profile() -> Profile {
     p.ops = w(&[("inject", 10), ("add_import_func", 1), ("build_func", 1)]);
     p.modes = SIMPLE_MODES.to_vec();
     p.final_end_after = true;
+    p.clears = true;
     p.mean_ops = 5;
     p
 }
@@ -219,6 +220,7 @@ pub fn special_profile() -> Profile {
     p.ops = w(&[("inject", 10), ("build_func", 1), ("add_import_func", 1)]);
     p.modes = ALL_MODES.to_vec();
     p.misapplied = true;
+    p.clears = true;
     p.mean_ops = 4;
     p
 }
